@@ -73,3 +73,63 @@ ENTRY int verif_xml_events(const unsigned char* ev, unsigned n, unsigned char* o
     *outlen = g_outlen;
     return rc;
 }
+
+// ---------------------------------------------------------------- generic element script (C02 / C03: nodes, ways, relations, change sections, bounds)
+// script bytes: 'S' name NUL nattrs (key NUL value NUL)* | 'E' | 'C' len bytes | 0.  Strings are used in place (pointers into the script), so bytes
+// the harness left symbolic stay symbolic.  hdr: [number of header boxes, then per box bottom-left x, y, top-right x, y], multiple_object_versions flag at hdr[17]
+ENTRY int verif_xml_script(const char* script, unsigned char* out, unsigned cap, unsigned* outlen, int* hdr) {
+    g_out = out; g_outcap = cap; g_outlen = 0;
+#ifdef VERIF_NATIVE
+    osmium::thread::Pool& pool = osmium::thread::Pool::default_instance();
+    future_string_queue_type inq{0, "in"}; future_buffer_queue_type outq{0, "out"};
+    std::promise<osmium::io::Header> header_promise; std::atomic<std::size_t> offset{0};
+    parser_arguments args{pool, -1, inq, outq, header_promise, &offset, osmium::osm_entity_bits::all, osmium::io::read_meta::yes, osmium::io::buffers_type::any, false};
+    XMLParser parser{args};
+    XMLParser* p = &parser;
+    struct Drain { future_buffer_queue_type& q; ~Drain() { while (q.size() > 0) { std::future<osmium::memory::Buffer> f; q.wait_and_pop(f); osmium::memory::Buffer b = f.get(); if (b) verif_model_send(nullptr, &b); } } };
+#else
+    struct Raw { alignas(XMLParser) unsigned char mem[sizeof(XMLParser)]; } raw; std::memset(raw.mem, 0, sizeof(raw.mem));
+    auto* p = reinterpret_cast<XMLParser*>(raw.mem);
+    new (&p->m_context_stack) std::vector<XMLParser::context>{};
+    new (&p->m_header) osmium::io::Header{};
+    new (&p->m_comment_text) std::string{};
+    new (&p->m_buffer) osmium::memory::Buffer{2048, osmium::memory::Buffer::auto_grow::internal};
+    p->m_buffers_kind = osmium::io::buffers_type::any;
+    p->m_read_which_entities = osmium::osm_entity_bits::all;
+    p->m_read_metadata = osmium::io::read_meta::yes;
+    p->m_header_is_done = true;
+#endif
+    int rc = 0;
+    try {
+        const char* s = script;
+        while (*s) {
+            const char op = *s++;
+            if (op == 'S') {
+                const char* name = s; s += std::strlen(s) + 1;
+                const unsigned na = static_cast<unsigned char>(*s++);
+                const char* attrs[2 * 12 + 1];
+                unsigned k = 0;
+                for (unsigned i = 0; i < na && i < 12; ++i) { attrs[k++] = s; s += std::strlen(s) + 1; attrs[k++] = s; s += std::strlen(s) + 1; }
+                attrs[k] = nullptr;
+                p->start_element(name, attrs);
+            } else if (op == 'E') {
+                p->end_element("x");
+            } else if (op == 'C') {
+                const unsigned n = static_cast<unsigned char>(*s++);
+                p->characters(s, static_cast<int>(n)); s += n;
+            } else break;
+        }
+        p->flush_final_buffer();
+    } catch (const osmium::xml_error&) { rc = 1; } catch (const osmium::format_version_error&) { rc = 1; } catch (const std::exception&) { rc = 2; } catch (...) { rc = 3; }
+#ifdef VERIF_NATIVE
+    { Drain d{outq}; }
+#endif
+    const auto& boxes = p->m_header.boxes();
+    hdr[0] = static_cast<int>(boxes.size());
+    for (unsigned i = 0; i < boxes.size() && i < 4; ++i) {
+        hdr[1 + 4 * i] = boxes[i].bottom_left().x(); hdr[2 + 4 * i] = boxes[i].bottom_left().y(); hdr[3 + 4 * i] = boxes[i].top_right().x(); hdr[4 + 4 * i] = boxes[i].top_right().y();
+    }
+    hdr[17] = p->m_header.has_multiple_object_versions() ? 1 : 0;
+    *outlen = g_outlen;
+    return rc;
+}
